@@ -8,6 +8,7 @@ place; R18e every separator path of split_at_chars is accounted for in the
 max_split bound; R18f parse_keyval_content = split at commas, then at the first
 equals sign (max_split=1) of each part."""
 import ast
+import re
 from .. import symex
 from ..core import (AnalysisError, short, unparse, iter_own, call_name, call_recv, kwarg,
                     is_self_attr, atomic_facts, parents, enclosing_stmt, enclosing_func)
@@ -470,6 +471,28 @@ def run(ctx):
                        % (' & '.join(bad_bound[0].cond_src())[:160] if bad_bound[0] else ''),
                        construct='split_at_node: max_split on every splitting path')
 
+    # every return of split_at_node hands out the parts that the loop collected (skip_none, keep_separators and
+    # call_make_nodelist apply to every call, also with max_split=0)
+    if len(sloops) == 1:
+        acc_ = {unparse(call_recv(c_)).split('[')[0] for c_ in ast.walk(sloops[0]) if isinstance(c_, ast.Call)
+                and call_name(c_) == 'append' and call_recv(c_) is not None}
+        try:
+            srs = [c_ for c_ in symex.Walker(want_returns=True).run(san) if c_.kind == 'return']
+        except symex.TooManyPaths:
+            srs = []
+        bad_r = None
+        for cs in srs:
+            txt_ = unparse(symex.expand(cs.sub, cs.env))
+            if not any(a_ and a_ in txt_ for a_ in acc_) and bad_r is None:
+                bad_r = cs
+        ctx.decide('R18k', bad_r is None and bool(srs), m, bad_r.node if bad_r else san,
+                   'every return of split_at_node returns the collected parts',
+                   'split_at_node returns %s on the path [%s] without going through the loop that collects the parts: None '
+                   'placeholders are not skipped (skip_none) and the part is not built by the node-list factory, so '
+                   'max_split=0 answers differently from every other max_split on the same list'
+                   % (short(bad_r.sub, 30) if bad_r else '', ' & '.join(bad_r.cond_src())[:100] if bad_r else ''),
+                   construct='split_at_node: returns')
+
     # ---- R18l: the walker's node-list factory needs its parsing_state keyword
     ctx.rule('R18l', 'every call of a node-list factory that may be the walker\'s make_nodelist() (a local bound to '
                      '<walker>.make_nodelist) passes parsing_state=, which that method requires (kwargs.pop without '
@@ -646,6 +669,27 @@ def run(ctx):
                        'between a separator and a following group or macro) is dropped from the parts'
                        % (short(cs.sub.args[0], 40), ' and '.join(o_[:60] for o_ in odd)),
                        construct='split_at_chars: chunk %s' % short(cs.sub.args[0], 40))
+    # ---- R18v: a node list always knows where it ends
+    ctx.rule('R18v', 'LatexNodeList.__init__ completes a missing pos / pos_end from its nodes whenever one of them is missing: the '
+                     'completion is unconditional, or guarded by a test that mentions both (the key-value code passes pos= and '
+                     'relies on pos_end being filled in: otherwise a concatenated repeated key has pos_end None and len None)', 1)
+    nli = m.functions.get('LatexNodeList.__init__')
+    upd = [a_ for a_ in iter_own(nli) if isinstance(a_, ast.Assign) and isinstance(a_.value, ast.Call)
+           and call_name(a_.value) == '_update_posposend_from_nodelist'] if nli is not None else []
+    if not upd:
+        ctx.unknown('R18v', m, nli, 'position completion in LatexNodeList.__init__ not found', construct='LatexNodeList.__init__: positions')
+    for a_ in upd:
+        conds_ = [(unparse(t_), p_) for t_, p_ in atomic_facts(a_)]
+        inside = [p_ for p_ in parents(a_) if isinstance(p_, (ast.If, ast.For, ast.While, ast.Try)) and any(
+            p_ is q_ for q_ in ast.walk(nli))]
+        okv = not inside or all(isinstance(p_, ast.If) and 'pos_end' in unparse(p_.test) and
+                                re.search(r'\bpos\b(?!_)', unparse(p_.test).replace('pos_end', 'POSEND')) for p_ in inside)
+        ctx.decide('R18v', bool(okv), m, a_, 'positions completed whenever one is missing',
+                   'LatexNodeList.__init__ completes the positions only under [%s]: a list constructed with pos= but without '
+                   'pos_end= (parse_keyval_content does this when it concatenates the values of a repeated key) keeps '
+                   'pos_end None, so its len is None' % ' & '.join(('' if p_ else 'not ') + t_ for t_, p_ in conds_)[:120],
+                   construct='LatexNodeList.__init__: positions')
+
     # ---- R18u: the characters of a node list are collected in document order
     ctx.rule('R18u', '_get_content_as_chars (the key of a key-value pair, get_content_as_chars()) takes the contents of a group at '
                      'the place of the group: the function either calls itself on the group\'s list where it meets the group, or '
